@@ -105,7 +105,7 @@ pub fn run(cx: &mut Ctx) {
     let mut cases: Vec<(usize, usize)> = vec![];
     let mut b = 2;
     while b <= max_bound {
-        let all = if cx.thorough { b <= 512 } else { b <= 64 };
+        let all = if cx.thorough { b <= 512 } else { b <= 256 };
         if all {
             for k in 0..b {
                 cases.push((b, k));
